@@ -22,8 +22,11 @@ import (
 	"github.com/qri-io/iso8601"
 
 	"github.com/olive-io/bpmn/schema"
+	"github.com/olive-io/bpmn/v2"
 	"github.com/olive-io/bpmn/v2/pkg/clock"
+	"github.com/olive-io/bpmn/v2/pkg/event"
 	"github.com/olive-io/bpmn/v2/pkg/timer"
+	"github.com/olive-io/bpmn/v2/pkg/tracing"
 
 	"verifharness/internal/rec"
 )
@@ -370,9 +373,11 @@ func c13grid(d c13def) []int64 {
 		add(z+I-1, z+I, z+I+1)
 		add(z+2*I-1, z+2*I)
 		add(z+3*I-1, z+3*I)
-		add(z+7*I+3, z+14*I+3, z+21*I+3)
 		if d.end != c13NoTime {
-			add(d.end-1, d.end)
+			// beyond the end bound all far points are alike
+			add(d.end-1, d.end, z+7*I+3)
+		} else {
+			add(z+7*I+3, z+14*I+3, z+21*I+3)
 		}
 	}
 	xs := make([]int64, 0, len(set))
@@ -550,4 +555,214 @@ func c13(out *rec.Out, rng *rec.Rng, tier string, stats map[string]int) {
 		c13case(out, d, ops, stats)
 		stats["race_cases"]++
 	}
+}
+
+// ---------------------------------------------------------------------------------------------
+// c13e: the same definitions inside a process — start → timer intermediate catch event → end —
+// run by the real engine on the mock clock. After every clock operation the harness waits until no
+// goroutine of the Go process can run and records what the catch event did: became listening,
+// observed a timer event, continued (a flow left it), the end event completed.
+
+func init() { families["c13e"] = c13e }
+
+const c13procXML = `<?xml version="1.0" encoding="UTF-8"?>
+<bpmn:definitions xmlns:bpmn="http://www.omg.org/spec/BPMN/20100524/MODEL" xmlns:xsi="http://www.w3.org/2001/XMLSchema-instance" id="defs" targetNamespace="http://bpmn.io/schema/bpmn">
+  <bpmn:process id="proc" isExecutable="true">
+    <bpmn:startEvent id="start"><bpmn:outgoing>f1</bpmn:outgoing></bpmn:startEvent>
+    <bpmn:sequenceFlow id="f1" sourceRef="start" targetRef="ev" />
+    <bpmn:intermediateCatchEvent id="ev">
+      <bpmn:incoming>f1</bpmn:incoming>
+      <bpmn:outgoing>f2</bpmn:outgoing>
+      <bpmn:timerEventDefinition id="td"><bpmn:%s xsi:type="bpmn:tFormalExpression">%s</bpmn:%s></bpmn:timerEventDefinition>
+    </bpmn:intermediateCatchEvent>
+    <bpmn:endEvent id="end"><bpmn:incoming>f2</bpmn:incoming></bpmn:endEvent>
+    <bpmn:sequenceFlow id="f2" sourceRef="ev" targetRef="end" />
+  </bpmn:process>
+</bpmn:definitions>`
+
+// every goroutine but the caller is parked (cannot run until the caller acts)
+func c13allParked() bool {
+	k := runtime.Stack(c13stackBuf, true)
+	for k == len(c13stackBuf) {
+		c13stackBuf = make([]byte, 2*len(c13stackBuf))
+		k = runtime.Stack(c13stackBuf, true)
+	}
+	for i, blk := range bytes.Split(c13stackBuf[:k], []byte("\n\n")) {
+		if i == 0 {
+			continue // the caller comes first
+		}
+		a := bytes.IndexByte(blk, '[')
+		b := bytes.IndexAny(blk, ",]")
+		if a < 0 || b < a {
+			continue
+		}
+		switch string(blk[a+1 : b]) {
+		case "running", "runnable", "syscall", "sleep":
+			// GC workers and the like are idle ("GC worker (idle)") and never "runnable" for long
+			if bytes.Contains(blk, []byte("runtime.gcBgMarkWorker")) || bytes.Contains(blk, []byte("runtime.bgsweep")) ||
+				bytes.Contains(blk, []byte("runtime.bgscavenge")) || bytes.Contains(blk, []byte("runtime.runfinq")) {
+				continue
+			}
+			return false
+		}
+	}
+	return true
+}
+
+func c13nodeID(n any) string {
+	type ider interface{ Id() (*schema.Id, bool) }
+	if x, ok := n.(ider); ok {
+		if id, present := x.Id(); present {
+			return string(*id)
+		}
+	}
+	return "?"
+}
+
+func c13ecase(out *rec.Out, d c13def, ops []c13op, stats map[string]int) {
+	out.Begin("c13e", "sync", "engine", d.kind, d.reps, c13opt(d.start), d.interval, c13opt(d.end), 0)
+	defer out.End()
+	tag := map[string]string{"date": "timeDate", "duration": "timeDuration", "cycle": "timeCycle"}[d.kind]
+	var defs schema.Definitions
+	if err := xml.Unmarshal([]byte(fmt.Sprintf(c13procXML, tag, d.iso(), tag)), &defs); err != nil {
+		out.Line("error parse %s", strings.ReplaceAll(err.Error(), " ", "_"))
+		return
+	}
+	clk := clock.NewMockAt(c13T0)
+	ctx, cancel := context.WithCancel(clock.ToContext(context.Background(), clk))
+	defer cancel()
+	tracer := tracing.NewTracer(ctx)
+	fanOut := event.NewFanOut()
+	builder := event.DefinitionInstanceBuildingChain(timer.EventDefinitionInstanceBuilder(ctx, fanOut, tracer))
+	traces := tracer.SubscribeChannel(make(chan tracing.ITrace, 4096))
+	proc, err := bpmn.NewEngine().NewProcess(&defs, bpmn.WithTracer(tracer),
+		bpmn.WithProcessEventDefinitionInstanceBuilder(builder),
+		bpmn.WithEventEgress(fanOut), bpmn.WithEventIngress(fanOut))
+	if err != nil {
+		out.Line("error newprocess %s", strings.ReplaceAll(err.Error(), " ", "_"))
+		return
+	}
+	if err = proc.StartAll(ctx); err != nil {
+		out.Line("error start %s", strings.ReplaceAll(err.Error(), " ", "_"))
+		return
+	}
+	conts := 0
+	emit := func(name string, arg int64) {
+		listen, observed, cont, done, errs := 0, 0, 0, 0, 0
+		deadline := time.Now().Add(5 * time.Second)
+		for i := 0; ; i++ {
+			parked := c13allParked()
+			got := false
+		drain:
+			for {
+				select {
+				case tr := <-traces:
+					got = true
+					switch t := tracing.Unwrap(tr).(type) {
+					case bpmn.ActiveListeningTrace:
+						listen++
+					case bpmn.EventObservedTrace:
+						observed++
+					case bpmn.FlowTrace:
+						if c13nodeID(t.Source) == "ev" {
+							cont++
+						}
+					case bpmn.CompletionTrace:
+						if c13nodeID(t.Node) == "end" {
+							done++
+						}
+					case bpmn.ErrorTrace:
+						errs++
+					}
+				default:
+					break drain
+				}
+			}
+			if parked && !got {
+				break
+			}
+			if i > 100 && time.Now().After(deadline) {
+				out.Line("stuck not-quiescent")
+				break
+			}
+			runtime.Gosched()
+		}
+		conts += cont
+		out.Line("e %s %d %d %d %d %d %d %s", name, arg, listen, observed, cont, done, errs, func() string {
+			ts := clk.VerifArmed()
+			xs := make([]int64, len(ts))
+			for i, t := range ts {
+				xs[i] = int64(t.Sub(c13T0) / time.Second)
+			}
+			sort.Slice(xs, func(i, j int) bool { return xs[i] < xs[j] })
+			return c13list(xs)
+		}())
+	}
+	emit("new", 0)
+	for _, o := range ops {
+		switch o.kind {
+		case "set":
+			clk.Set(c13tm(o.arg))
+		case "add":
+			clk.Add(time.Duration(o.arg) * time.Second)
+		}
+		emit(o.kind, o.arg)
+	}
+	cancel()
+	// let the engine's goroutines finish so that they do not pile up across cases
+	for i := 0; i < 100000 && !c13allParked(); i++ {
+		runtime.Gosched()
+	}
+	tracer.Unsubscribe(traces)
+	stats["cases"]++
+	stats["kind_"+d.kind]++
+	stats[fmt.Sprintf("continued_%d", conts)]++
+}
+
+func c13e(out *rec.Out, rng *rec.Rng, tier string, stats map[string]int) {
+	defer runtime.GOMAXPROCS(runtime.GOMAXPROCS(1))
+	N := c13NoTime
+	// due times ahead of the clock only: a timer is created with the process, i.e. before the
+	// catch event starts listening; a firing the event was not yet listening for is ignored
+	defs := []c13def{
+		{via: "new", kind: "date", start: 10, end: N},
+		{via: "new", kind: "duration", interval: 10, start: N, end: N},
+	}
+	for _, reps := range []int{0, 1, 2, 3, -1} {
+		defs = append(defs,
+			c13def{via: "new", kind: "cycle", reps: reps, start: N, interval: 10, end: N},
+			c13def{via: "new", kind: "cycle", reps: reps, start: 20, interval: 10, end: N},
+			c13def{via: "new", kind: "cycle", reps: reps, start: N, interval: 10, end: 25})
+	}
+	maxLen := 2
+	stride := 1
+	if tier == "thorough" {
+		maxLen = 4
+	}
+	for _, d := range defs {
+		grid := c13grid(d)
+		var seq []int64
+		n := 0
+		var recur func(from int)
+		recur = func(from int) {
+			n++
+			if n%stride == 0 {
+				ops := make([]c13op, len(seq))
+				for i, x := range seq {
+					ops[i] = c13op{"set", x}
+				}
+				c13ecase(out, d, ops, stats)
+			}
+			if len(seq) == maxLen {
+				return
+			}
+			for i := from; i < len(grid); i++ {
+				seq = append(seq, grid[i])
+				recur(i + 1)
+				seq = seq[:len(seq)-1]
+			}
+		}
+		recur(0)
+	}
+	_ = rng
 }
